@@ -247,15 +247,34 @@ func (e *exec) wrfault() {
 		}
 	}
 	vmc.AddWake(vmc.Epoch.Add(20*time.Second), "written-or-horizon")
-	vmc.Await("writes reached the transport", func() bool { return c.WriteCalls >= nw || vmc.NowNS() >= int64(20*time.Second) })
-	if c.WriteCalls < nw {
-		e.fail("only %d of %d writes reached the transport (write %d failed)", c.WriteCalls, nw, j)
+	closeSeen := func() bool {
+		for _, ev := range e.evs {
+			if ev.what == "close" {
+				return true
+			}
+		}
+		return false
 	}
+	vmc.Await("writes reached the transport", func() bool { return c.WriteCalls >= nw || closeSeen() || vmc.NowNS() >= int64(20*time.Second) })
 	sleepUntil(time.Duration(vmc.NowNS()) + time.Second)
+	if c.WriteCalls < nw && !closeSeen() {
+		e.fail("only %d of %d writes reached the transport (write %d failed) although the channel is still open", c.WriteCalls, nw, j)
+	}
+	// after the failed write the channel either goes on (C13: "keeps delivering later valid
+	// writes") or is closed and reported with the write error as the cause; in the first case
+	// the read side fails next and the close event must carry THAT error
+	closedByWrite := false
 	for _, ev := range e.evs {
 		if ev.what == "close" {
-			e.fail("channel closed (%v) although only a write failed and the read side is healthy", ev.err)
+			closedByWrite = true
+			if !errors.Is(ev.err, errWrite) {
+				e.fail("channel closed with %v after write %d of %d failed with %v and before the read side failed", ev.err, j, nw, errWrite)
+			}
 		}
+	}
+	if closedByWrite {
+		n.Close()
+		return
 	}
 	c.FailRead(want)
 	sleepUntil(time.Duration(vmc.NowNS()) + time.Second)
@@ -454,8 +473,8 @@ func (e *exec) reconn() {
 	if len(att) < nAttempts+1 {
 		e.fail("only %d connection attempts within 70 s (script %v): the endpoint stopped reconnecting", len(att), script)
 	}
-	if len(att) > 0 && att[0] != 0 {
-		e.fail("first connection attempt at %v, must be immediate", att[0])
+	if len(att) > 0 && att[0] >= 2*time.Second {
+		e.fail("first connection attempt at %v: there is no reconnect delay before the very first attempt", att[0])
 	}
 	// pair up attempts with channel open / close events
 	var opens, closes []evRec
@@ -490,7 +509,7 @@ func (e *exec) reconn() {
 		if !errors.Is(closes[oi].err, a.err) {
 			e.fail("close event of connection %d carries %v, the transport failed with %v", i, closes[oi].err, a.err)
 		}
-		if opens[oi].at != att[i] {
+		if opens[oi].at < att[i] || opens[oi].at >= att[i]+time.Second {
 			e.fail("open event of attempt %d at %v, connected at %v", i, opens[oi].at, att[i])
 		}
 		lastEnd = closes[oi].at
